@@ -93,10 +93,12 @@ def judge(ctx: Ctx, calls, group=1):
 
 
 def self_test(ctx: Ctx):
-    good = call_validate((5, 4), [[0], [-1]], 8)
+    # synthetic records (independent of the real code)
+    good = {"f": "validate", "shape": [5, 4], "spec": [[0], [-1]], "limit": 8, "raised": False, "res": [[2, 2, 1], [4]],
+            "ranges": [[[0, 2], [2, 4], [4, 5]], [[0, 4]]], "iter": True, "int_form": False}
     c1 = json.loads(json.dumps(good)); c1["res"][0][0] += 1          # corrupted result: no longer sums to shape
     c2 = json.loads(json.dumps(good)); c2["ranges"][0][0][1] += 1    # corrupted range
-    c3 = call_equal(7, 3); c3["res"] = [5, 1, 1]
+    c3 = {"f": "equal", "n": 7, "m": 3, "raised": False, "res": [5, 1, 1], "ranges": [[0, 5], [5, 6], [6, 7]]}
     res = ctx.validate("ChunksTrace", [[good], [c1], [c2], [c3]], "ChunksTrace.cfg")
     if not res[0][0] or res[1][0] or res[2][0] or res[3][0]:
         raise Machinery(f"ChunksTrace self-test failed: {res}")
